@@ -136,7 +136,7 @@ func ruleP07IndexOrder(p *Prog, r *Report) {
 		}
 		if fa, ok := st.Addr.(*ssa.FieldAddr); ok && typeNameOf(fa.X.Type()) == "batchResult" && fieldName(fa) == "index" {
 			nIdxStores++
-			if strip(st.Val) == ssa.Value(work.Params[0]) {
+			if strip(st.Val) == ssa.Value(work.Params[len(work.Params)-2]) {
 				okInit = true
 			}
 		}
@@ -699,7 +699,7 @@ func ruleP07Carry(p *Prog, r *Report) {
 		r.undecided(rule, "work", p.pos(parse.Pos()), "work function literal not found")
 		return
 	}
-	text := work.Params[1]
+	text := work.Params[len(work.Params)-1]
 	// the batch text variable may be reassigned to a suffix of itself: cell or SSA slices
 	fromText := func(v ssa.Value) bool {
 		for i := 0; i < 6; i++ {
